@@ -352,7 +352,8 @@ class BehavioralRTLIRToVVisitorL1( bir.BehavioralRTLIRNodeVisitor ):
           return one_bit_template.format( **locals() )
 
     elif isinstance( node.value, bir.Index ):
-      _one_bit = True
+      # An index into a vector is one bit; an element of an array is not
+      _one_bit = current_nbits == 1
     else:
       _one_bit = False
 
